@@ -3,7 +3,7 @@ import IofloModel.Drv.Proto
 /-!
 driver for the server connection-table model (engine `server`, C26)
 
-  reset <orig|fixed> <tls 0|1> <eha>
+  reset <orig|fixed|fixed2> <tls 0|1> <eha>        (fixed = with D14, fixed2 = with D14 and D14b)
   arrive <peer> <sockname> <reported> <hs>     hs = word over d (done) w (want) f (fail), `-` = empty
   accepts | axes | cxes | connects | all | closeall
   shutdown <ca> | close <ca> | remove <ca> <0|1>
@@ -64,7 +64,8 @@ def allNat (l : List String) : Option (List Nat) :=
 def step (d : Option D) (line : String) : Option D × String :=
   match words line with
   | ["reset", v, tls, eha] =>
-    match (if v == "orig" then some Version.orig else if v == "fixed" then some Version.fixed else none),
+    match (if v == "orig" then some Version.orig else if v == "fixed" then some Version.fixed
+           else if v == "fixed2" then some Version.fixed2 else none),
           bool? tls, eha.toNat? with
     | some v, some tls, some eha => (some { v := v, s := init tls eha }, "ok")
     | _, _, _ => (d, "bad-op")
